@@ -98,7 +98,7 @@ def case(rep, drv, rnd, i, tier):
     # oracle: every engine alone
     solo = []
     for h in hists:
-        r, err = scen.run_real(h)
+        r, err = scen.run_real_robust(h, rep)
         if err:
             rep.violation({'kind': 'real code raised', 'error': err, 'ops': scen.ops_json(h)})
             return
